@@ -42,7 +42,10 @@ def encode_name(rng, s):
 
 def gen_bytes(rng, maxlen=4096):
     n = rng.randint(0, rng.choice([0, 1, 2, 3, 5, 8, 16, 32, 64, 128, 256, 512, 1024, 2048, maxlen]))
-    k = rng.randint(0, 6)
+    k = rng.randint(0, 9)
+    if k >= 7:      # zero prefix, then half zero / half uniform: reaches fragments, extensions, operations
+        z = rng.randint(0, 300)
+        return bytes(z) + bytes(rng.randrange(256) if rng.random() < 0.5 else 0 for _ in range(min(n, 1500)))
     if k == 5:      # minimal early definitions, entropy for the later sections (fragments, operations)
         z = rng.randint(0, min(n, 400))
         return bytes(z) + bytes(rng.randrange(256) for _ in range(n - z))
@@ -177,6 +180,16 @@ def run(ctx):
     if corpus.exists():
         for f in sorted(corpus.glob("*.hex")):
             fixed.append(f.read_text().strip())
+    # neighbours of the corpus seeds (the seeds reach rarely taken paths: nested fragment spreads, extensions that
+    # add `implements`, interfaces with two parents): single-byte changes
+    for seed in fixed:
+        raw = bytearray(bytes.fromhex(seed)) if seed != "-" else bytearray()
+        for _ in range(12 if quick else 300):
+            b = bytearray(raw)
+            for _ in range(rng.randint(1, 3)):
+                if b:
+                    b[rng.randrange(len(b))] = rng.choice([0, 1, 2, 3, 255, rng.randrange(256)])
+            bcases.append(hb(bytes(b)))
     bcases = fixed + bcases
     outs = run_family(impl, "smith_document", bcases)
     fam = ctx.cov["families"].setdefault("smith_document", {"cases": 0, "exhausted": 0, "documents": 0, "valid": 0, "known": 0})
@@ -288,8 +301,9 @@ def run(ctx):
         "smith_names: every byte string of length <= 3 over 12 class representatives (size / charset boundaries, the "
         "`_` index, 0x00, 0xff), byte strings encoding sequences of chosen names (reserved words, trailing "
         "underscores, names colliding with suffixed names, 30-character names) and random bytes, 1-40 calls each; "
-        f"smith_document: {ndocs} byte strings of length 0-4096 from seven distributions (uniform, mostly 0x00, mostly "
-        "0xff, repeated 1-6 byte patterns, boundary bytes, zero prefix + uniform, zero runs with random bursts) plus corpus/C32; smith_facts: every generated document that "
+        f"smith_document: {ndocs} byte strings of length 0-4096 from eight distributions (uniform, mostly 0x00, mostly "
+        "0xff, repeated 1-6 byte patterns, boundary bytes, zero prefix + uniform, zero runs with random bursts, zero "
+        "prefix + half-zero uniform), the corpus seeds and single-byte neighbours of them plus corpus/C32; smith_facts: every generated document that "
         "parses; smith_operation: generated schemas x random bytes (<= 512) plus one witness per known panic class.  "
         "A document case is non-trivial if a document is returned.")
     ctx.cov["exhaustive"] = False
